@@ -40,6 +40,7 @@ import (
 	"os"
 	"path/filepath"
 	"sort"
+	"syscall"
 
 	"pgregory.net/rapid"
 )
@@ -48,11 +49,12 @@ import (
 // slash-separated path relative to that directory.
 type Snapshot struct {
 	Files map[string][]byte
+	inode map[string]uint64 // identity of each file when read from disk (0 if unknown)
 }
 
 // Snap reads all regular files below dir (recursively).
 func Snap(dir string) (*Snapshot, error) {
-	s := &Snapshot{Files: map[string][]byte{}}
+	s := &Snapshot{Files: map[string][]byte{}, inode: map[string]uint64{}}
 	err := filepath.WalkDir(dir, func(p string, d fs.DirEntry, err error) error {
 		if err != nil {
 			return err
@@ -69,6 +71,11 @@ func Snap(dir string) (*Snapshot, error) {
 			return err
 		}
 		s.Files[filepath.ToSlash(rel)] = b
+		if info, err := d.Info(); err == nil {
+			if st, ok := info.Sys().(*syscall.Stat_t); ok {
+				s.inode[filepath.ToSlash(rel)] = st.Ino
+			}
+		}
 		return nil
 	})
 	if err != nil {
@@ -113,6 +120,8 @@ type File struct {
 	Fresh    bool     // created since the last barrier: may be absent after a crash
 	InPlace  bool     // rewritten in place: crash variants are Versions, not cuts
 	Versions [][]byte // InPlace only: distinct contents since the last barrier, oldest (durable) first, current last
+	Replaced bool     // the name referred to another file (inode) at the previous observation
+	inode    uint64
 }
 
 // Size is the current length.
@@ -138,9 +147,16 @@ type Tracker struct {
 	dir     string
 	inPlace func(name string) bool
 	ignore  func(name string) bool
+	atomic  func(name string) bool
 	seq     int
 	files   map[string]*File
 }
+
+// AtomicReplace declares which files the observed program only ever replaces as a
+// whole by "write temp file, fsync, rename" (so a replaced file is completely
+// durable at once). A replaced file not covered by this is a deleted and
+// re-created file: nothing of it is durable and it is fresh.
+func (t *Tracker) AtomicReplace(fn func(name string) bool) { t.atomic = fn }
 
 // NewTracker creates a tracker for dir. inPlace (may be nil) tells which files
 // are rewritten in place rather than appended to; ignore (may be nil) excludes
@@ -165,8 +181,10 @@ func commonPrefix(a, b []byte) int64 {
 // Observe snapshots the directory now and updates the bookkeeping: files that
 // disappeared are forgotten (deletion is durable), new files start with
 // Durable=0 and Fresh=true, a file whose durable prefix shrank or changed keeps
-// only the unchanged part as durable, in-place files record a new version when
-// their content changed.
+// only the unchanged part as durable, a name that now refers to another inode is
+// either an atomically replaced file (fully durable, see AtomicReplace) or a
+// re-created one (fresh, nothing durable), in-place files record a new version
+// when their content changed.
 func (t *Tracker) Observe() (*State, error) {
 	snap, err := Snap(t.dir)
 	if err != nil {
@@ -178,8 +196,20 @@ func (t *Tracker) Observe() (*State, error) {
 			continue
 		}
 		old := t.files[name]
-		f := &File{Name: name, Data: data}
+		f := &File{Name: name, Data: data, inode: snap.inode[name]}
 		f.InPlace = t.inPlace != nil && t.inPlace(name)
+		if old != nil && old.inode != 0 && f.inode != 0 && old.inode != f.inode {
+			f.Replaced = true
+			if !f.InPlace {
+				if t.atomic != nil && t.atomic(name) {
+					f.Durable = int64(len(data))
+				} else {
+					f.Fresh = true
+				}
+				next[name] = f
+				continue
+			}
+		}
 		if old == nil {
 			f.Fresh = true
 			if f.InPlace {
